@@ -62,9 +62,10 @@ type c17Msg struct {
 	errMod  int // every errMod-th retransmission reports an error (0 = never)
 
 	registered, cancelled bool
-	liveTicks             int // ticks sent while registered and not cancelled
-	returned              int // Strategy.Tick invocations that returned
-	entered, exited       int // retransmit callback entries / exits
+	racing                bool // being scheduled while ticks are dispatched: the ticks it sees are not known yet
+	liveTicks             int  // ticks sent while registered and not cancelled
+	returned              int  // Strategy.Tick invocations that returned
+	entered, exited       int  // retransmit callback entries / exits
 	maxInside             int
 	gate                  chan struct{} // non-nil: callbacks block until it is closed
 }
@@ -90,7 +91,7 @@ func (m *c17Msg) retransmit() error {
 		m.maxInside = inside
 	}
 	// a retransmission can never come before the tick it belongs to was sent
-	if due := c17Expected(m.backoff, m.liveTicks); n > due {
+	if due := c17Expected(m.backoff, m.liveTicks); n > due && !m.racing {
 		s.bad = append(s.bad, fmt.Sprintf("message %d (%s): retransmission #%d happened when only %d ticks were delivered to it (%d due)",
 			m.id, m.kind(), n, m.liveTicks, due))
 	}
@@ -152,7 +153,7 @@ func c17Workers() (unparked, parked int) {
 // and inconclusive=true on timeout. With final=true it additionally waits
 // until no retransmission goroutine is left at all before looking, so late
 // invocations cannot slip past the last look.
-func (s *c17State) quiesce(ticker *Ticker, sent int, final bool) (violation string, inconclusive bool) {
+func (s *c17State) quiesce(ticker *Ticker, ticks chan uint64, sent int, final bool) (violation string, inconclusive bool) {
 	deadline := time.Now().Add(30 * time.Second)
 	// look reads the bookkeeping: settled = every message got exactly the
 	// invocations it is owed; over = some message got more; under names a
@@ -162,6 +163,9 @@ func (s *c17State) quiesce(ticker *Ticker, sent int, final bool) (violation stri
 		defer s.mu.Unlock()
 		settled = true
 		for _, m := range s.msgs {
+			if m.racing {
+				continue // judged once its registration has settled
+			}
 			got := m.returned + (m.entered - m.exited)
 			if got > m.liveTicks && over == "" {
 				over = fmt.Sprintf("message %d (%s): strategy ticked %d times although only %d ticks were delivered while its context was live",
@@ -213,6 +217,15 @@ func (s *c17State) quiesce(ticker *Ticker, sent int, final bool) (violation stri
 				}
 			}
 		}
+		if !seenAll && i >= 200 && i%200 == 0 && len(ticks) == 0 && c17TickerParked(ticker) {
+			// The tick source is empty and the Ticker waits for the next tick:
+			// every tick written has been taken and its dispatch is over. The
+			// sentinel handler (never cancelled) counts the dispatches.
+			if seen := atomic.LoadInt64(&s.seen); seen != int64(sent) {
+				return fmt.Sprintf("%d ticks were written to the tick source (channel capacity %d) but the ticker dispatched %d: \"for each item read from the channel, new tick is triggered\"",
+					sent, cap(ticks), seen), false
+			}
+		}
 		if i < 200 {
 			runtime.Gosched()
 			continue
@@ -224,12 +237,38 @@ func (s *c17State) quiesce(ticker *Ticker, sent int, final bool) (violation stri
 	}
 }
 
+// c17TickerParked reports whether the loop goroutine of this Ticker is parked
+// waiting for the next tick (consistent goroutine snapshot; the Ticker is
+// recognised by the receiver pointer printed in its start frame).
+func c17TickerParked(ticker *Ticker) bool {
+	buf := make([]byte, 1<<20)
+	for {
+		n := runtime.Stack(buf, true)
+		if n < len(buf) {
+			buf = buf[:n]
+			break
+		}
+		buf = make([]byte, 2*len(buf))
+	}
+	mine := fmt.Sprintf("(*Ticker).start(%p", ticker)
+	for _, g := range strings.Split(string(buf), "\n\n") {
+		if strings.Contains(g, mine) {
+			header, _, _ := strings.Cut(g, "\n")
+			return strings.Contains(header, "[chan receive")
+		}
+	}
+	return false
+}
+
 // check compares the retransmission counts with the model; call only in a
 // quiescent state.
 func (s *c17State) check() string {
 	s.mu.Lock()
 	defer s.mu.Unlock()
 	for _, m := range s.msgs {
+		if m.racing {
+			continue
+		}
 		if want := c17Expected(m.backoff, m.liveTicks); m.entered != want {
 			return fmt.Sprintf("message %d (%s): %d retransmissions after %d ticks, schedule says %d",
 				m.id, m.kind(), m.entered, m.liveTicks, want)
@@ -266,18 +305,16 @@ func TestVerif_C17_Schedule(t *testing.T) {
 		maxTicks = 420
 	}
 	overlappedBackoff := false
-	defer func() {
-		if overlappedBackoff {
-			// printed only when the test fails (e.g. the race detector fired)
-			t.Logf("overlapping ticks were delivered to a backoff strategy in this run [finding-key=%s]", c17KeyD5)
-		}
-	}()
+	_ = &overlappedBackoff // D5 is repaired; the finding key is only used for exclusion while listed open
 	rapid.Check(t, func(t *rapid.T) {
-		ticks := make(chan uint64)
+		// the tick source: unbuffered like the time ticker, or buffered like the
+		// chain block counters' watch channels (ticks can pile up in it)
+		tickCap := rapid.SampledFrom([]int{0, 0, 1, 4, 64}).Draw(t, "tickSourceCapacity")
+		ticks := make(chan uint64, tickCap)
 		ticker := NewTicker(ticks)
 		s := &c17State{}
 		ticker.onTick(context.Background(), func() { atomic.AddInt64(&s.seen, 1) })
-		nMsgs := rapid.IntRange(1, 3).Draw(t, "messages")
+		nMsgs := rapid.IntRange(1, 4).Draw(t, "messages")
 		for i := 0; i < nMsgs; i++ {
 			m := &c17Msg{s: s, id: i, backoff: rapid.IntRange(0, 2).Draw(t, "strategy") > 0}
 			// the production factory picks the strategy
@@ -294,6 +331,7 @@ func TestVerif_C17_Schedule(t *testing.T) {
 		var plan []string
 		sent := 0
 		burstOnBackoff, sawCancelThenTicks := false, false
+		racingRegs := 0
 		maxBurst := 0
 
 		fail := func(format string, args ...any) {
@@ -314,7 +352,7 @@ func TestVerif_C17_Schedule(t *testing.T) {
 		}
 		final := false
 		settle := func() {
-			v, inconclusive := s.quiesce(ticker, sent, final)
+			v, inconclusive := s.quiesce(ticker, ticks, sent, final)
 			if inconclusive {
 				s.mu.Lock()
 				var state []string
@@ -378,7 +416,7 @@ func TestVerif_C17_Schedule(t *testing.T) {
 		}
 		nOps := rapid.IntRange(1, 14).Draw(t, "ops")
 		for op := 0; op < nOps && sent < maxTicks; op++ {
-			switch rapid.SampledFrom([]string{"step", "step", "burst", "burst", "burst", "bigburst", "run", "register", "cancel", "hold", "release"}).Draw(t, "op") {
+			switch rapid.SampledFrom([]string{"step", "step", "burst", "burst", "burst", "bigburst", "run", "register", "register-during-ticks", "cancel", "hold", "release", "register-during-ticks"}).Draw(t, "op") {
 			case "step":
 				sendBurst(1)
 				plan = append(plan, "t")
@@ -423,6 +461,64 @@ func TestVerif_C17_Schedule(t *testing.T) {
 						break
 					}
 				}
+			case "register-during-ticks":
+				// A message is scheduled while a burst of ticks is being
+				// dispatched. Which of those ticks it sees is not defined
+				// (registration is asynchronous) - but once both the burst and
+				// the registration are over it IS scheduled: the ticks it saw
+				// are read off (0..burst), and from then on it must follow its
+				// schedule like every other live message.
+				var m *c17Msg
+				for _, c := range s.msgs {
+					if !c.registered {
+						m = c
+						break
+					}
+				}
+				if m == nil {
+					break
+				}
+				n := rapid.IntRange(4, 40).Draw(t, "racingBurst")
+				if liveBackoff() {
+					burstOnBackoff = true
+					overlappedBackoff = true
+				}
+				s.mu.Lock()
+				m.racing = true
+				s.mu.Unlock()
+				ctx, cancel := context.WithCancel(context.Background())
+				m.cancel = cancel
+				var wg sync.WaitGroup
+				wg.Add(1)
+				go func() {
+					defer wg.Done()
+					sendBurst(n)
+				}()
+				for i, k := 0, rapid.IntRange(0, 30).Draw(t, "racingDelay"); i < k; i++ {
+					runtime.Gosched()
+				}
+				ScheduleRetransmissions(ctx, &testutils.MockLogger{}, ticker, m.retransmit, m)
+				wg.Wait()
+				settle() // every tick dispatched, the other messages settled
+				ticker.handlersMutex.Lock()
+				ticker.handlersMutex.Unlock() //nolint:staticcheck
+				if !c17WaitRegistered() {
+					fail("VERIF-INCONCLUSIVE: racing registration did not settle")
+				}
+				s.mu.Lock()
+				saw := m.returned + (m.entered - m.exited)
+				m.liveTicks, m.racing, m.registered = saw, false, true
+				s.mu.Unlock()
+				plan = append(plan, fmt.Sprintf("reg%d:%s-during-burst%d(saw %d)", m.id, m.kind(), n, saw))
+				racingRegs++
+				if saw > n {
+					fail("message %d scheduled during a burst of %d ticks was ticked %d times", m.id, n, saw)
+				}
+				settle()
+				// it is scheduled now: a tick must reach it
+				sendBurst(1)
+				plan = append(plan, "t")
+				settle()
 			case "cancel":
 				m := s.msgs[rapid.IntRange(0, nMsgs-1).Draw(t, "cancelWho")]
 				if m.registered && !m.cancelled {
@@ -526,7 +622,8 @@ func TestVerif_C17_Schedule(t *testing.T) {
 			"overlapping-callbacks:"+ovl, "ticks:"+tk,
 			fmt.Sprintf("burst-on-backoff:%v", burstOnBackoff),
 			fmt.Sprintf("cancel-then-ticks:%v", sawCancelThenTicks),
-			fmt.Sprintf("messages:%d", nMsgs))
+			fmt.Sprintf("messages:%d", nMsgs), fmt.Sprintf("tick-source-capacity:%d", tickCap),
+			fmt.Sprintf("scheduled-during-ticks:%v", racingRegs > 0))
 	})
 }
 
@@ -540,11 +637,7 @@ func TestVerif_C17_ConcurrentTicks(t *testing.T) {
 	defer st.Flush()
 	excludeD5 := verifkit.Known(c17KeyD5)
 	overlappedBackoff := false
-	defer func() {
-		if overlappedBackoff {
-			t.Logf("overlapping ticks were delivered to a backoff strategy in this run [finding-key=%s]", c17KeyD5)
-		}
-	}()
+	_ = &overlappedBackoff // D5 is repaired; the finding key is only used for exclusion while listed open
 	rapid.Check(t, func(t *rapid.T) {
 		backoff := rapid.IntRange(0, 3).Draw(t, "strategy") > 0
 		var strategy Strategy
